@@ -12,9 +12,10 @@ import (
 )
 
 var verifHarnesses = map[string]func(){
-	"VerifC13Layout":  VerifC13Layout,
-	"VerifC13Quoting": VerifC13Quoting,
-	"VerifC13CharLit": VerifC13CharLit,
+	"VerifC13Layout":      VerifC13Layout,
+	"VerifC13Quoting":     VerifC13Quoting,
+	"VerifC13CharLit":     VerifC13CharLit,
+	"VerifC13CharLitWide": VerifC13CharLitWide,
 }
 
 // verifIsLayout recognises (white space | // ... newline | /* ... */)* over s completely.
@@ -203,6 +204,51 @@ func VerifC13CharLit() {
 		t, _ := s.Scan()
 		verifAssert(t.Type == charLit && len(t.Lit) == len(lits[i]) && s.ErrorCount == 0, "every spelling is one char_lit token without error")
 		verifAssert(util.LitToRune(t.Lit) == rune(ch), "every spelling denotes the same code point")
+	}
+	verifCover("end")
+}
+
+// VerifC13CharLitWide: the same for code points beyond ASCII. RANGE 0: U+0080..U+00FF (raw
+// two-byte UTF-8, \xhh, \ooo, \u00hh, \U000000hh); RANGE 1: U+0100..U+FFFF without the
+// surrogates (raw UTF-8 of two or three bytes, \uhhhh, \U0000hhhh).
+func VerifC13CharLitWide() {
+	hex := func(d rune) byte {
+		d &= 15
+		if d < 10 {
+			return '0' + byte(d)
+		}
+		return 'a' + byte(d) - 10
+	}
+	cp := verifNondetRune("cp")
+	var lits [][]byte
+	if verifParam("RANGE", 0) == 0 {
+		verifAssume(cp >= 0x80 && cp <= 0xff)
+		lits = [][]byte{
+			{'\'', 0xc0 | byte(cp>>6), 0x80 | byte(cp&0x3f), '\''},
+			{'\'', '\\', 'x', hex(cp >> 4), hex(cp), '\''},
+			{'\'', '\\', '0' + byte(cp>>6), '0' + byte(cp>>3)&7, '0' + byte(cp)&7, '\''},
+			{'\'', '\\', 'u', '0', '0', hex(cp >> 4), hex(cp), '\''},
+			{'\'', '\\', 'U', '0', '0', '0', '0', '0', '0', hex(cp >> 4), hex(cp), '\''},
+		}
+	} else {
+		verifAssume(cp >= 0x100 && cp <= 0xffff && !(cp >= 0xd800 && cp <= 0xdfff))
+		raw := []byte{'\'', 0xc0 | byte(cp>>6), 0x80 | byte(cp&0x3f), '\''}
+		if cp >= 0x800 {
+			raw = []byte{'\'', 0xe0 | byte(cp>>12), 0x80 | byte((cp>>6)&0x3f), 0x80 | byte(cp&0x3f), '\''}
+		}
+		lits = [][]byte{
+			raw,
+			{'\'', '\\', 'u', hex(cp >> 12), hex(cp >> 8), hex(cp >> 4), hex(cp), '\''},
+			{'\'', '\\', 'U', '0', '0', '0', '0', hex(cp >> 12), hex(cp >> 8), hex(cp >> 4), hex(cp), '\''},
+		}
+	}
+	charLit := token.FRONTENDTokens.Type("char_lit")
+	for i := 0; i < len(lits); i++ {
+		var s Scanner
+		s.Init(lits[i], token.FRONTENDTokens)
+		t, _ := s.Scan()
+		verifAssert(t.Type == charLit && len(t.Lit) == len(lits[i]) && s.ErrorCount == 0, "every spelling is one char_lit token without error")
+		verifAssert(util.LitToRune(t.Lit) == cp, "every spelling denotes the same code point")
 	}
 	verifCover("end")
 }
